@@ -675,9 +675,66 @@ class FHInterp(Interp):
                     s.env[name] = Opq("list-built-in-loop", [val, itv])
         return res
 
+    def _mask_loop(self, node, mask, st, frame):
+        """``for flag in mask:`` with a Boolean accumulator or an early exit, decided from the truth table of one
+        iteration (flag True / flag False, accumulator symbolic).  Returns traces or None if the body is not of that kind."""
+        if not isinstance(node.target, ast.Name) or node.orelse:
+            return None
+        assigned = {n.id for b in node.body for n in ast.walk(b) if isinstance(n, ast.Name) and isinstance(n.ctx, ast.Store)}
+        carried = sorted(n for n in assigned if n in st.env and n != node.target.id)
+        if len(carried) > 1:
+            return None
+        acc = Opq("accumulator")
+        outs = {}
+        for flag in (True, False):
+            s = st.copy()
+            s.env[node.target.id] = K(flag)
+            if carried:
+                s.env[carried[0]] = acc
+            res = self.block(node.body, s, frame)
+            if len(res) != 1:
+                return None
+            outs[flag] = res[0]
+        (sT, oT), (sF, oF) = outs[True], outs[False]
+        if carried and oT[0] in ("fall", "continue") and oF[0] in ("fall", "continue"):
+            c = carried[0]
+            fT, fF, init = sT.env.get(c), sF.env.get(c), st.env[c]
+            after = st.copy()
+            if fT == acc and fF == K(False):  # acc = acc and flag
+                after.env[c] = AllV(mask) if init == K(True) else (K(False) if init == K(False) else Opq("and", [init, AllV(mask)]))
+            elif fT == K(True) and fF == acc:  # acc = acc or flag
+                after.env[c] = Opq("any", [mask]) if init == K(False) else (K(True) if init == K(True) else Opq("or", [init, Opq("any", [mask])]))
+            elif fT == K(True) and fF == K(False):  # acc = flag : only the last element counts
+                after.env[c] = Opq("last-element-of", [mask, init])
+            elif fT == K(False) and fF == K(True):
+                after.env[c] = Opq("not-last-element-of", [mask, init])
+            elif fT == acc and fF == acc:
+                pass
+            else:
+                return None
+            if isinstance(node.target, ast.Name):
+                after.env[node.target.id] = Opq("loop-var-after:" + node.target.id)
+            return [(after, ("fall",))]
+        if not carried:
+            # early exit: ``if not flag: return v`` / ``if flag: return v``
+            for exits_on, (sx, ox), (sk, ok_) in ((False, outs[False], outs[True]), (True, outs[True], outs[False])):
+                if ox[0] == "return" and ok_[0] in ("fall", "continue"):
+                    cond = AllV(mask) if exits_on is False else AllV(mask.complement())
+                    key = "v:%r" % (cond,)
+                    self.pathvals[key] = (cond, node.iter, frame.func.name)
+                    s_exit, s_stay = st.copy(), st.copy()
+                    s_exit.atoms[key], s_stay.atoms[key] = False, True
+                    s_stay.env[node.target.id] = Opq("loop-var-after:" + node.target.id)
+                    return [(s_exit, ("return", ox[1])), (s_stay, ("fall",))]
+        return None
+
     def _for_inner(self, node, st, frame):
         # a loop over a short literal tuple / list of constants is unrolled (a dispatch table walked in order)
         itv = self.ev(node.iter, st, frame)
+        if isinstance(itv, Mask):
+            r = self._mask_loop(node, itv, st, frame)
+            if r is not None:
+                return r
         if isinstance(itv, Tup) and 0 < len(itv.items) <= 8 and all(isinstance(x, (K, Lin)) for x in itv.items) \
                 and isinstance(node.iter, (ast.Tuple, ast.List)):
             live, done, broken = [st], [], []
